@@ -6,6 +6,7 @@
 -/
 import Genql.Properties.C06Model
 import Genql.Properties.C01
+import Genql.Properties.C05
 set_option linter.unusedSectionVars false
 set_option linter.unusedVariables false
 set_option linter.unusedSimpArgs false
@@ -67,5 +68,34 @@ theorem union_all_model (env : Env N) (data : Row N) (l r : Query N) (ls rs : Li
     execQuery env data {} (.union [] l r false [] none none) = .ok (.arr (ls.map stripRow ++ rs.map stripRow)) := by
   rw [union_model env data l r false [] none none ls rs hl hr]
   simp [unionRows, sortRows, window_none, bind, Except.bind, pure, Except.pure]
+
+/-- the fields of the copy `stripRow` makes -/
+def stripR (r : Row N) : Row N := copyInto [] (delKey "<-" r)
+
+/-- **a parenthesised inner union with a window of its own** — `(A UNION ALL B LIMIT n OFFSET m) UNION ALL C`: the window cuts
+    `A ++ B` (rows `m .. m+n-1` of the concatenation), and only then the rows of `C` are appended; nothing of the inner
+    LIMIT / OFFSET is lost or moved to the outer union (round 11: a flattening of union chains dropped it). -/
+theorem nested_union_inner_window (env : Env N) (data : Row N) (a b c : Query N) (as bs cs : List (Row N))
+    (limit offset : Option Nat)
+    (ha : execQuery env data {} a = .ok (.arr (as.map Val.obj)))
+    (hb : execQuery env data {} b = .ok (.arr (bs.map Val.obj)))
+    (hc : execQuery env data {} c = .ok (.arr (cs.map Val.obj))) :
+    execQuery env data {} (.union [] (.union [] a b false [] limit offset) c false [] none none)
+      = .ok (.arr ((((as.map stripR ++ bs.map stripR).drop (offset.getD 0)).take
+            (limit.getD (as.length + bs.length))).map stripRow ++ cs.map stripRow)) := by
+  have hin : execQuery env data {} (.union [] a b false [] limit offset)
+      = .ok (.arr ((((as.map stripR ++ bs.map stripR).drop (offset.getD 0)).take
+            (limit.getD (as.length + bs.length))).map Val.obj)) := by
+    rw [union_model env data a b false [] limit offset as bs ha hb]
+    have hrows : unionRows valEq false (as.map stripRow) (bs.map stripRow)
+        = (as.map stripR ++ bs.map stripR).map Val.obj := by
+      simp only [unionRows, List.map_append, List.map_map, Function.comp_def, Bool.false_eq_true, if_false]
+      rfl
+    have hs : ∀ rows : List (Val N), sortRows [] rows = .ok rows := by
+      intro rows; simp [sortRows]
+    simp only [hrows, hs, bind, Except.bind, pure, Except.pure]
+    rw [C05.window_exact]
+    simp [List.map_drop, List.map_take]
+  exact union_all_model env data _ c _ cs hin hc
 
 end Genql.C06
